@@ -10,6 +10,8 @@ int inj_len;
 struct sockaddr_storage inj_from;
 socklen_t inj_fromlen;
 int inj_residue = -1;
+int inj_dest_family;
+unsigned char inj_dest4[4];
 unsigned char tun_written[16][65536];
 int tun_written_len[16];
 int tun_written_count;
@@ -111,7 +113,21 @@ ssize_t __wrap_recvmsg(int fd, struct msghdr *msg, int flags)
 		memcpy(msg->msg_name, &inj_from, l);
 		msg->msg_namelen = inj_fromlen;
 	}
-	msg->msg_controllen = 0;
+	if (inj_dest_family == 4 && msg->msg_control &&
+	    msg->msg_controllen >= CMSG_SPACE(sizeof(struct in_pktinfo))) {
+		struct cmsghdr *cm;
+		struct in_pktinfo pi;
+		memset(msg->msg_control, 0, msg->msg_controllen);
+		cm = CMSG_FIRSTHDR(msg);
+		cm->cmsg_level = IPPROTO_IP;
+		cm->cmsg_type = IP_PKTINFO;
+		cm->cmsg_len = CMSG_LEN(sizeof(pi));
+		memset(&pi, 0, sizeof(pi));
+		memcpy(&pi.ipi_addr, inj_dest4, 4);
+		memcpy(CMSG_DATA(cm), &pi, sizeof(pi));
+		msg->msg_controllen = CMSG_SPACE(sizeof(pi));
+	} else
+		msg->msg_controllen = 0;
 	return n;
 }
 
